@@ -106,11 +106,20 @@ type StreamCase struct {
 	Algos  []string `json:"algos"`
 	Reader bool     `json:"reader"`
 	Multi  bool     `json:"multi"` // NewHasherWriters/Readers vs the single variants
+	// EndMode shapes how the source reader ends: 0 = data, then (0, EOF);
+	// 1 = the last chunk comes together with io.EOF; 2 = after chunk ErrAt the
+	// source fails with (n>0, error): what was delivered until then is the stream.
+	EndMode int `json:"endMode,omitempty"`
+	ErrAt   int `json:"errAt,omitempty"`
 }
 
 func genStreamCase(t *rapid.T) StreamCase {
 	d := genData(t, "d")
 	c := StreamCase{Data: d, Cuts: genCuts(t, "cut", len(d)), Reader: rapid.Bool().Draw(t, "reader"), Multi: rapid.Bool().Draw(t, "multi")}
+	if c.Reader {
+		c.EndMode = rapid.SampledFrom([]int{0, 0, 1, 1, 2}).Draw(t, "endMode")
+		c.ErrAt = rapid.IntRange(0, 6).Draw(t, "errAt")
+	}
 	n := 1
 	if c.Multi {
 		n = rapid.IntRange(0, 5).Draw(t, "nalgos")
@@ -123,24 +132,49 @@ func genStreamCase(t *rapid.T) StreamCase {
 
 // chunkReader delivers data in the given chunk sizes.
 type chunkReader struct {
-	chunks [][]byte
+	chunks  [][]byte
+	endMode int
+	errAt   int // endMode 2: fail together with the data of this chunk index
+	idx     int
+	failed  bool
 }
 
+var errSourceBroke = fmt.Errorf("source reader broke")
+
 func (c *chunkReader) Read(p []byte) (int, error) {
+	if c.failed {
+		return 0, errSourceBroke
+	}
 	for len(c.chunks) > 0 && len(c.chunks[0]) == 0 {
 		c.chunks = c.chunks[1:]
+		c.idx++
 	}
 	if len(c.chunks) == 0 {
 		return 0, io.EOF
 	}
 	n := copy(p, c.chunks[0])
 	c.chunks[0] = c.chunks[0][n:]
+	done := len(c.chunks[0]) == 0
+	last := done
+	for _, rest := range c.chunks[1:] {
+		if len(rest) > 0 {
+			last = false
+		}
+	}
+	if c.endMode == 2 && done && c.idx == c.errAt {
+		c.failed = true
+		return n, errSourceBroke
+	}
+	if c.endMode == 1 && last {
+		c.chunks = nil
+		return n, io.EOF
+	}
 	return n, nil
 }
 
 var specC12Stream = Register(&Spec[StreamCase]{
 	Prop: "C12", Name: "stream",
-	Rule: "byte strings of 0..64 KiB (block-boundary lengths 55,56,63,64,65,111,112,119,120,127,128,129 in a dedicated class; small contents fully rapid-owned) x up to 6 cut points (empty chunks allowed) x an ordered list of 0..5 algorithm names with repetition x {writer, reader} x {single, plural constructor}. Oracle: the bytes arriving at the target / delivered by the reader equal the input; per hasher Name() is the requested name in order, Size() the byte count so far after every chunk and the total at the end, Sum(nil) the crypto/md5, sha1, sha256, sha512 digest of the whole input. Non-trivial: >= 1 byte in >= 2 chunks (and >= 2 algorithms for the plural constructors); distinct by case.",
+	Rule: "byte strings of 0..64 KiB (block-boundary lengths 55,56,63,64,65,111,112,119,120,127,128,129 in a dedicated class; small contents fully rapid-owned) x up to 6 cut points (empty chunks allowed) x an ordered list of 0..5 algorithm names with repetition x {writer, reader} x {single, plural constructor}; source readers end with (0, EOF), deliver their last chunk together with io.EOF, or fail with (n>0, error) after a generated chunk (the stream is then what was delivered). Oracle: the bytes arriving at the target / delivered by the reader equal the input; per hasher Name() is the requested name in order, Size() the byte count so far after every chunk and the total at the end, Sum(nil) the crypto/md5, sha1, sha256, sha512 digest of the whole input. Non-trivial: >= 1 byte in >= 2 chunks (and >= 2 algorithms for the plural constructors); distinct by case.",
 	Check: func(c StreamCase, r *Recorder) error {
 		chunks := chunksOf(c.Data, c.Cuts)
 		nonEmpty := 0
@@ -158,6 +192,9 @@ var specC12Stream = Register(&Spec[StreamCase]{
 		}
 		if c.Multi {
 			cl = append(cl, "plural")
+		}
+		if c.Reader {
+			cl = append(cl, errf("endmode:%d", c.EndMode).Error())
 		}
 		r.Case(jsonKey(c), nt, cl...)
 		if nt {
@@ -201,7 +238,7 @@ var specC12Stream = Register(&Spec[StreamCase]{
 				}
 			}
 		} else {
-			src := &chunkReader{chunks: append([][]byte{}, chunks...)}
+			src := &chunkReader{chunks: append([][]byte{}, chunks...), endMode: c.EndMode, errAt: c.ErrAt}
 			var rd io.Reader
 			var err error
 			if c.Multi {
@@ -224,6 +261,11 @@ var specC12Stream = Register(&Spec[StreamCase]{
 					return e
 				}
 				if err == io.EOF {
+					break
+				}
+				if err == errSourceBroke {
+					// the stream is what was delivered before the source failed
+					c.Data = c.Data[:sofar]
 					break
 				}
 				if err != nil {
@@ -257,7 +299,7 @@ var specC12Stream = Register(&Spec[StreamCase]{
 })
 
 func TestC12_Stream(t *testing.T) {
-	specC12Stream.Run(t, genStreamCase, 5000, 50000)
+	specC12Stream.Run(t, genStreamCase, 12000, 60000)
 }
 
 type AlgoName struct {
@@ -457,5 +499,5 @@ var specC12Verify = Register(&Spec[VerifyCase]{
 })
 
 func TestC12_Verify(t *testing.T) {
-	specC12Verify.Run(t, genVerifyCase, 10000, 100000)
+	specC12Verify.Run(t, genVerifyCase, 25000, 120000)
 }
